@@ -358,15 +358,6 @@ theorem read_contracts_run (hR : RLocal R) (c m : Nat) (ops : List Op) :
   have := run_ok R hR ops (init c m) [] (init_inv c m) c0
   simpa [runEvs] using this
 
-theorem finishInline_ret (s : St) (cu : Bool) (f0 f : Nat) (h : (finishInline R cu s f0).2 = .fut f) : f = f0 := by
-  unfold finishInline at h
-  split at h
-  · simp at h; exact h.symm
-  · split at h
-    · simp at h; exact h.symm
-    · simp at h
-  · simp at h
-
 /-- **issued_of_ret**: the table entry of a read call is keyed by the very future the call returned -/
 theorem issued_of_ret (s : St) (op : Op) (f : Nat) (q : Spec.Req) (hq : reqOfOp op = some q)
     (h : (step R s op).2.ret = .fut f) : issued s op = [(f, q)] := by
